@@ -196,7 +196,9 @@ fn validate_byte_ranges(
 ) -> Result<(), InvalidByteRangeError> {
     for byte_range in byte_ranges {
         let valid = match byte_range {
-            ByteRange::FromStart(offset, length) => offset + length.unwrap_or(0) <= bytes_len,
+            ByteRange::FromStart(offset, length) => offset
+                .checked_add(length.unwrap_or(0))
+                .is_some_and(|end| end <= bytes_len),
             ByteRange::Suffix(length) => *length <= bytes_len,
         };
         if !valid {
